@@ -366,6 +366,7 @@ def c06(c):
     mc = McOutcome()
     model_check(mc, [dict(module="MC_KeyCodec", cfg="MC_KeyCodec", workers=16)])
     c.add_mc(mc)
+    _mc_wire(c, thorough)     # system view: exported / tampered / reframed items on the wire, Strict and RoundTrip as invariants
     # C06 is one-directional: what from_bytes ACCEPTS must be canonical (and the listed malformed classes must be rejected).  A decoder
     # that rejects more than the specification's (e.g. an added validity check on secret keys) does not violate it; rejected honest
     # encodings are C05's business.  So: wrong accepts, non-identical re-encodings and rejected honest objects are violations here;
